@@ -330,6 +330,7 @@ def check(tier, seed, workers):
     known = runner.load_known(NAME)
     new = 0
     reported = set()
+    unconfirmed = []
     for v in violations:
         key = json.dumps(v["signature"])
         if key in reported:
@@ -351,13 +352,31 @@ def check(tier, seed, workers):
                 pair = p2
                 pair_seeds = sorted({p2[0][0], p2[1][0]})
         small, tried = minimise(item, v["kind"], pair_seeds, tmp) if len(pair_seeds) == 2 else (item, 0)
-        c3, _ = rerun(small, pair_seeds, tmp, "final")
-        m3 = c3.get((small["id"], v["kind"]), {})
+        for attempt in range(3):
+            c3, _ = rerun(small, pair_seeds, tmp, "final-%d" % attempt)
+            m3 = c3.get((small["id"], v["kind"]), {})
+            if len(set(m3.values())) > 1:
+                break
         doc = {"property": NAME, "engine": NAME, "seed": seed, "tier": tier, "item": small, "kind": v["kind"],
                "hashseeds": pair_seeds, "clause": v["clause"], "signature": v["signature"],
                "digests": {"%s/%d" % k: h for k, h in sorted(m3.items())},
                "minimisation_executions": tried,
                "observed_in_batch": v["digests"]}
+        if len(set(m3.values())) > 1:
+            # does the output follow the hash seed alone?  Re-run the same two interpreters: if the digests move,
+            # the difference comes from something the simulator can sample but not steer (object addresses);
+            # the replay file then promises a difference, not particular digests.
+            c4, _ = rerun(small, pair_seeds, tmp, "final-again")
+            m4 = c4.get((small["id"], v["kind"]), {})
+            if {"%s/%d" % k: h for k, h in sorted(m4.items())} != doc["digests"]:
+                doc["exact"] = False
+                doc["clause"] = v["clause"] = "identical-across-fresh-processes"
+                doc["signature"] = ["identical-across-fresh-processes", v["kind"].split("@")[0]]
+                v = dict(v, signature=doc["signature"])
+                hit = [text for ksig, text in known if ksig == v["signature"]]
+                if hit:
+                    print("KNOWN-FINDING: property=%s %s" % (NAME, hit[0]))
+                    continue
         if len(set(m3.values())) <= 1:
             # alone, the item is stable: the difference needs what ran before it in the same interpreter.
             # Replay the two complete interpreter contexts (same hash seed, same visiting order, stopped
@@ -381,10 +400,10 @@ def check(tier, seed, workers):
                 print("KNOWN-FINDING: property=%s %s" % (NAME, hit[0]))
                 continue
         path = runner.write_replay(NAME, seed, v["item"].replace("/", "_") + "-" + v["kind"].replace("@", "_"), doc)
-        ok, outp = runner.confirm_replay(path, timeout=900)
+        ok, outp = runner.confirm_replay(path, timeout=1800)
         if not ok:
-            print("HARNESS-ERROR: property=C14 a violation did not replay in fresh interpreters (%s)\n%s" % (path, outp[-1500:]))
-            return 2
+            unconfirmed.append((path, outp[-1500:]))
+            continue
         print("VIOLATION property=%s replay=%s" % (NAME, path))
         print("  clause=%s item=%s kind=%s hashseeds=%s" % (doc["clause"], v["item"], v["kind"], doc.get("hashseeds") or [j["hashseed"] for j in doc["jobs"]]))
         new += 1
@@ -432,8 +451,16 @@ def check(tier, seed, workers):
     }
     runner.write_evidence(NAME, tier, seed, LEVEL, coverage, wall, len(violations), ASSUMPTIONS)
     print("interpreters=%d cells=%d nontrivial=%d evaluations=%d wall=%.1fs differing=%d new=%d" % (
-        len(seeds) * plan["shards"], len(cells), nt_cells, rows_total, wall, len(violations), new))
-    return 1 if new else 0
+        len(seeds) * plan["shards"] + len(light_seeds), len(cells), nt_cells, rows_total, wall, len(violations), new))
+    for path, outp in unconfirmed:
+        print("NOTE: a differing cell did not replay in fresh interpreters (%s)" % path)
+    if new:
+        return 1
+    if unconfirmed:
+        # differences were seen but none could be reproduced: neither a pass nor a verdict
+        print("HARNESS-ERROR: property=C14 differing cells were observed but none replayed\n%s" % unconfirmed[0][1])
+        return 2
+    return 0
 
 
 def replay(doc, path):
@@ -456,18 +483,25 @@ def replay(doc, path):
         print("VIOLATION property=C14 replay=%s" % path)
         return 1
     item = doc["item"]
-    cells, failures = rerun(item, doc["hashseeds"], tmp, "replay")
-    if failures:
-        print("HARNESS-ERROR: replay children failed: %s" % failures[:2])
-        return 2
-    m = cells.get((item["id"], doc["kind"]), {})
-    got = {"%s/%d" % k: h for k, h in sorted(m.items())}
+    attempts = 1 if doc.get("exact", True) else 5
+    for attempt in range(attempts):
+        cells, failures = rerun(item, doc["hashseeds"], tmp, "replay-%d" % attempt)
+        if failures:
+            print("HARNESS-ERROR: replay children failed: %s" % failures[:2])
+            return 2
+        m = cells.get((item["id"], doc["kind"]), {})
+        got = {"%s/%d" % k: h for k, h in sorted(m.items())}
+        if len(set(m.values())) > 1:
+            break
     if len(set(m.values())) <= 1:
         print("REPLAY-NOT-REPRODUCED property=C14 file=%s" % path)
         return 0
     if doc.get("digests") and got != doc["digests"]:
-        print("REPLAY-DIGEST-MISMATCH property=C14 file=%s %s vs %s" % (path, got, doc["digests"]))
-        return 2
+        if doc.get("exact", True):
+            print("REPLAY-DIGEST-MISMATCH property=C14 file=%s %s vs %s" % (path, got, doc["digests"]))
+            return 2
+        print("  note: the outputs differ again, but not with the recorded digests: this output does not follow the "
+              "hash seed alone (object addresses / per-process state), which the simulator can sample but not steer")
     print("REPLAY-REPRODUCED property=C14 clause=%s item=%s kind=%s" % (doc["clause"], item["id"], doc["kind"]))
     for k, h in got.items():
         print("  hashseed/rep %s -> %s" % (k, h[:16]))
